@@ -38,6 +38,7 @@ Fixpoint stmt_eqb (a b : stmt) {struct a} : bool :=
   | SIf c t h e, SIf c' t' h' e' => expr_eqb c c' && stmts_eqb t t' && Bool.eqb h h' && stmts_eqb e e'
   | SFor c b0, SFor c' b' => expr_eqb c c' && stmts_eqb b0 b'
   | SBlock b0, SBlock b' => stmts_eqb b0 b'
+  | SSwitch t cs, SSwitch t' cs' => expr_eqb t t' && clauses_eqb cs cs'
   | _, _ => false
   end
 with stmts_eqb (a b : stmts) {struct a} : bool :=
@@ -45,11 +46,17 @@ with stmts_eqb (a b : stmts) {struct a} : bool :=
   | TNil, TNil => true
   | TCons s r, TCons s' r' => stmt_eqb s s' && stmts_eqb r r'
   | _, _ => false
+  end
+with clauses_eqb (a b : clauses) {struct a} : bool :=
+  match a, b with
+  | CNil, CNil => true
+  | CCons es bd r, CCons es' bd' r' => exprs_eqb es es' && stmts_eqb bd bd' && clauses_eqb r r'
+  | _, _ => false
   end.
 
 Definition k1s_bad (cases : list (list sop * stmts)) : list (N * N) :=
   flat_map (fun ic =>
-    match sexec (fst (snd ic)) ([], [mkF KTop None None TNil]) with
+    match sexec (fst (snd ic)) ([], [mkF KTop None None TNil CNil XNil]) with
     | Some ([], [f]) =>
         match fk f with
         | KTop => if stmts_eqb (fbody f) (snd (snd ic)) then [] else [(fst ic, 1%N)]
